@@ -487,6 +487,32 @@ def r8_cancel_and_listener(tree, rep):
                    "confirmed before connect() was called is not the result of connect()")
 
 
+def contenders_stay_failed(tree, rep, rule="C07.R9"):
+    """every Deferred that joins the race succeeds only with a negotiated connection: a connection attempt that FAILED (refused, DNS,
+    bad handshake, cancelled) must stay failed.  there_can_be_only_one takes the first success as the winner and cancels everyone else,
+    so an errback stage that swallows a failure (falls off its end, returns f.trap(..)'s class, log.err) makes a dead hint win: connect()
+    returns None or an exception class and the viable contenders are cancelled."""
+    from ..deferredchain import failure_to_success_stages, stages
+    from ..astutil import callback_function
+    methods = tree.methods(TR, "Common")
+    n = 0
+    for fname in ("_start_connector", "_connect"):
+        fn = tree.func(TR, "Common", fname)
+        dvars = sorted({t.id for a in ast.walk(fn) if isinstance(a, ast.Assign) for t in a.targets if isinstance(t, ast.Name)
+                        and stages(fn, t.id)})
+        for v in dvars:
+            bad = failure_to_success_stages(fn, v, lambda e: callback_function(e, fn, methods))
+            n += len(stages(fn, v))
+            rep.check(rule, "Common.%s: no stage of the callback chain on `%s` (%d stage(s)) turns a failed attempt into a success" % (fname, v, len(stages(fn, v))),
+                      not bad, site(bad[0] if bad else fn, TR), key="%s:%s:%s:failure-preserved" % (rule, fname, v),
+                      what="Common.%s: the errback `%s` can end without re-raising / returning the failure: a connection attempt that failed "
+                           "(refused, DNS error) becomes a SUCCESS of the race with a result that is no connection - the dead hint wins, every "
+                           "viable contender is cancelled and connect() returns %s" % (fname, ast.unparse(bad[0])[:90] if bad else "", "None / an exception class"))
+    sc = tree.func(TR, "Common", "_start_connector")
+    rep.check(rule, "Common._start_connector builds its contender from ep.connect(..) and a startNegotiation callback", n >= 1 and
+              any(isinstance(c, ast.Attribute) and c.attr == "startNegotiation" for c in ast.walk(sc)), site(sc, TR), key="%s:_start_connector:shape" % rule)
+
+
 def run(tree, rep, tier):
     r8_cancel_and_listener(tree, rep)
     from .. import ctxmgr
@@ -500,6 +526,7 @@ def run(tree, rep, tier):
     r5(tree, rep)
     race_discipline(tree, rep)
     r6(tree, rep)
+    contenders_stay_failed(tree, rep)
 
 
 MUTANTS = [
